@@ -305,16 +305,18 @@ let cmd_detect (toks : string list) : unit =
    score and the merge (Model/Cd.v, Layers.v, Jaro32.v) computed by the models as well; what is still answered by the
    library: the codecs (Q DEC / TEST / CDEC), the per-character properties (Q FLAGS / RACC / ISALPHA / LOWER) and
    alphabet_languages (Q ALPH) *)
-let full_cd_oracles : Cd.cd_oracles = {
-  Cd.layers = (fun t -> Layers.alpha_unicode_split layer_alpha layer_lower t);
-  Cd.alphabet_langs = cd_oracles.Cd.alphabet_langs;
-  Cd.popularity = cd_oracles.Cd.popularity;
+let base_oracles : Pipeline.base_oracles = {
+  Pipeline.b_sdecode = oracles.Detect.sdecode;
+  Pipeline.b_stest = oracles.Detect.stest;
+  Pipeline.b_cdecode = oracles.Detect.cdecode;
+  Pipeline.b_flags = md_oracles.Md.char_flags;
+  Pipeline.b_unaccent = md_oracles.Md.unaccent;
+  Pipeline.b_is_alpha = layer_alpha;
+  Pipeline.b_to_lower = layer_lower;
+  Pipeline.b_alphabet_langs = cd_oracles.Cd.alphabet_langs;
 }
-let full_oracles : Detect.oracles = { oracles with
-  Detect.mess = (fun t thr -> Md.mess_ratio fo (Obj.magic Md32.md_consts32) md_oracles t thr);
-  Detect.coh = (fun t thr langs -> Cd.coherence_ratio fo full_cd_oracles t thr langs);
-  Detect.merge = (fun ls -> Cd.merge_coherence_ratios fo ls);
-}
+(* the composition itself is the Coq definition Pipeline.pipeline (theorems: Proofs/PipelineFacts.v) *)
+let full_oracles : Detect.oracles = Pipeline.pipeline base_oracles
 let cmd_detect_full (toks : string list) : unit =
   let cfg, _, _ = parse_settings toks in
   let payload = bytes_of_ocaml (read_tagged "B") in
